@@ -192,6 +192,22 @@ pub fn trace(seed: u64, n: usize) -> Vec<J> {
             }
         })).unwrap_or(json!({"k": "panic"}));
         ev.push(json!({"ev": "eval", "i": i, "query": query, "e": e, "env": env, "out": out}));
+        // now(): the one function whose value is not a function of the row -- it lies between the instants just before and just after the evaluation,
+        // and an expression over it is evaluated on that instant (now() - now() is no negative interval, now() >= a past literal)
+        if i % 97 == 5 {
+            use chrono::{Datelike, Timelike};
+            let stamp = |t: chrono::DateTime<chrono::Local>| json!({"t": "ts", "f": [t.year(), t.month(), t.day(), t.hour(), t.minute(), t.second(), t.timestamp_subsec_micros()]});
+            let q = "SELECT now() AS r, now() >= make_timestamp(2020, 1, 1, 0, 0, 0, 0) AS past, EXTRACT(YEAR FROM now()) AS y FROM t";
+            let lo = chrono::Local::now();
+            let tx = text.clone();
+            let got = std::panic::catch_unwind(std::panic::AssertUnwindSafe(|| {
+                let stmt = sqlgrep::parsing::parse(q).ok()?;
+                let mut engine = ExecutionEngine::new(&tables, &stmt);
+                match engine.execute(tx, &ExecutionConfig::default()) { Ok(o) => o.result_row.map(|rr| rr.data[0].columns.iter().map(project).collect::<Vec<_>>()), Err(_) => None }
+            })).unwrap_or(None);
+            let hi = chrono::Local::now();
+            ev.push(json!({"ev": "now", "lo": stamp(lo), "hi": stamp(hi), "out": got.map(|g| json!({"k": "val", "vs": g})).unwrap_or(json!({"k": "err", "vs": []}))}));
+        }
     }
     ev
 }
